@@ -1,148 +1,301 @@
+/-! # Model of /repo/range-cache/range-cache.go and of the reader in /repo/split-car-fetcher/remote-file.go
+
+Line-by-line model (core Lean only).  What is modelled, and how:
+
+* `Range [2]int64`, `contains`, the validity test of `setRange`/`getRange`: `Int` arithmetic, `start + ln`
+  wrapped to int64 (`wrap64`) as Go does.
+* `map[Range]RangeCacheEntry`: a list of entries (keys unique, proved as an invariant).  Go's map iteration
+  order is arbitrary: every loop over the map runs over `reorder ks cache` where `ks : Order` is a
+  parameter; `reorder_perm`/`reorder_complete` show that the parameter ranges over exactly the permutations.
+* `ctx.Err()` is polled once per loop iteration: `Ctx = Option Nat` (`none` = never cancelled, `some k` =
+  the first `k` polls return nil, all later ones `context.Canceled`).
+* `occupiedSpace uint64`: a `Nat` kept modulo 2^64 with Go's wrapping `+=`/`-=`.
+* the remote fetcher is a parameter: the outcome `(n, err, buffer)` of one call.  The code ignores `n`.
+* `LastRead`/`time.Since` are not modelled: `DeleteOldEntries` takes the set of entries that are older
+  than `maxAge` at that moment as a parameter (`expired`), so theorems hold for every expiry pattern.
+* Go runtime failure (slice bounds) is the explicit outcome `panic`.
+* `klog` calls have no effect on the state or the results.
+-/
 namespace RC
 
 abbrev Bytes := List UInt8
 
-structure Entry where
-  s : Nat
-  e : Nat          -- [s, e)
-  v : Bytes
+def slice (f : Bytes) (off len : Nat) : Bytes := (f.drop off).take len
 
-structure St where
-  cache : List Entry     -- Go map[Range]entry; iteration order = any permutation (we never rely on order)
+/-! ## int64 / uint64 arithmetic -/
 
-def slice (file : Bytes) (s e : Nat) : Bytes := (file.drop s).take (e - s)
+def two63 : Int := 9223372036854775808
+def two64 : Nat := 18446744073709551616
 
-def Good (file : Bytes) (en : Entry) : Prop := en.s ≤ en.e ∧ en.e ≤ file.length ∧ en.v = slice file en.s en.e
+/-- Go int64 addition wraps around -/
+def wrap64 (x : Int) : Int := (x + 9223372036854775808) % 18446744073709551616 - 9223372036854775808
 
-def Inv (file : Bytes) (st : St) : Prop := ∀ en ∈ st.cache, Good file en
+def IsI64 (x : Int) : Prop := -9223372036854775808 ≤ x ∧ x < 9223372036854775808
 
-def contains (a : Entry) (s e : Nat) : Bool := a.s ≤ s && e ≤ a.e
+/-- `occupiedSpace += uint64(n)` -/
+def add64 (a n : Nat) : Nat := (a + n) % 18446744073709551616
+/-- `occupiedSpace -= uint64(n)` (wraps below zero) -/
+def sub64 (a n : Nat) : Nat := (a + 18446744073709551616 - n % 18446744073709551616) % 18446744073709551616
 
-/-- getRangeFromCache: exact or superset hit (any entry that contains the range; which one is found first
-    depends on map order, the result must not) -/
-def lookup (st : St) (s e : Nat) : Option Bytes :=
-  match st.cache.find? (fun en => contains en s e) with
-  | some en => some ((en.v.drop (s - en.s)).take (e - s))
+/-! ## map iteration order -/
+
+/-- an iteration order: insertion positions -/
+abbrev Order := List Nat
+
+/-- insert `x` at position `n` (at the end when `n` is too large) -/
+def ins {α : Type} (x : α) : Nat → List α → List α
+  | 0, l => x :: l
+  | _ + 1, [] => [x]
+  | n + 1, y :: l => y :: ins x n l
+
+/-- the order in which a `for … range map` loop meets the entries: any permutation, coded by `ks` -/
+def reorder {α : Type} : Order → List α → List α
+  | _, [] => []
+  | [], l => l
+  | k :: ks, x :: xs => ins x k (reorder ks xs)
+
+/-! ## context -/
+
+/-- `none`: the context is never cancelled.  `some k`: the next `k` calls of `ctx.Err()` return nil, later ones an error -/
+abbrev Ctx := Option Nat
+
+def Ctx.done : Ctx → Bool
+  | some 0 => true
+  | _ => false
+
+/-- the context after one `ctx.Err()` poll that returned nil -/
+def Ctx.tick : Ctx → Ctx
   | none => none
+  | some k => some (k - 1)
 
-/-- setRange as the Go loop over the map in the order `st.cache` happens to have -/
-def setRange (st : St) (s e : Nat) (v : Bytes) : St :=
-  let rec go : List Entry → List Entry → Option (List Entry)   -- none = a superset exists, nothing inserted
-    | [], kept => some kept
-    | en :: rest, kept =>
-      if contains en s e then none
-      else if (s ≤ en.s && en.e ≤ e) then go rest kept        -- delete subset
-      else go rest (kept ++ [en])
-  match go st.cache [] with
-  | none => st      -- NOTE: Go may already have deleted some subsets before meeting the superset; see `setRange_early`
-  | some kept => { cache := kept ++ [⟨s, e, v⟩] }
+/-! ## state -/
 
-theorem slice_sub (file : Bytes) (a b s e : Nat) (h1 : a ≤ s) (h2 : s ≤ e) (h3 : e ≤ b) (h4 : b ≤ file.length) :
-    ((slice file a b).drop (s - a)).take (e - s) = slice file s e := by
-  unfold slice
-  rw [List.drop_take, List.drop_drop, List.take_take]
-  have h5 : a + (s - a) = s := by omega
-  have h6 : min (e - s) (b - a - (s - a)) = e - s := by omega
-  rw [h5, h6]
+structure Entry where
+  s : Int
+  e : Int          -- key Range{s, e} = [s, e)
+  v : Bytes        -- RangeCacheEntry.Value
+deriving Repr, DecidableEq
 
-theorem lookup_correct (file : Bytes) (st : St) (hinv : Inv file st) (s e : Nat) (hse : s ≤ e) (b : Bytes)
-    (h : lookup st s e = some b) : b = slice file s e := by
-  unfold lookup at h
-  cases hf : st.cache.find? (fun en => contains en s e) with
-  | none => simp [hf] at h
-  | some en =>
-    simp only [hf, Option.some.injEq] at h
-    have hmem : en ∈ st.cache := List.mem_of_find?_eq_some hf
-    have hc : contains en s e = true := by
-      have := List.find?_some (p := fun en => contains en s e) hf
-      simpa using this
-    obtain ⟨g1, g2, g3⟩ := hinv en hmem
-    simp [contains] at hc
-    rw [← h, g3]
-    exact slice_sub file en.s en.e s e hc.1 hse hc.2 g2
+structure State where
+  cache : List Entry
+  occ : Nat          -- occupiedSpace
+deriving Repr, DecidableEq
 
-theorem go_sub (s e : Nat) : ∀ (l kept out : List Entry), setRange.go s e l kept = some out →
-    ∀ en ∈ out, en ∈ kept ∨ en ∈ l := by
-  intro l
-  induction l with
-  | nil => intro kept out h en hen; simp [setRange.go] at h; subst h; exact Or.inl hen
-  | cons x rest ih =>
-    intro kept out h en hen
-    simp only [setRange.go] at h
-    split at h
-    · cases h
-    · split at h
-      · rcases ih kept out h en hen with h' | h'
-        · exact Or.inl h'
-        · exact Or.inr (List.mem_cons_of_mem _ h')
-      · rcases ih (kept ++ [x]) out h en hen with h' | h'
-        · rcases List.mem_append.mp h' with h'' | h''
-          · exact Or.inl h''
-          · simp at h''; subst h''; exact Or.inr (List.mem_cons_self ..)
-        · exact Or.inr (List.mem_cons_of_mem _ h')
+/-- NewRangeCache -/
+def State.empty : State := ⟨[], 0⟩
 
-/-- every operation keeps the cache truthful, whatever the iteration order -/
-theorem setRange_inv (file : Bytes) (st : St) (hinv : Inv file st) (s e : Nat) (v : Bytes)
-    (hse : s ≤ e) (hle : e ≤ file.length) (hv : v = slice file s e) : Inv file (setRange st s e v) := by
-  unfold setRange
-  cases hg : setRange.go s e st.cache [] with
-  | none => simpa [hg] using hinv
-  | some kept =>
-    simp only [hg]
-    intro en hen
-    rcases List.mem_append.mp hen with h | h
-    · rcases go_sub s e st.cache [] kept hg en h with h' | h'
-      · simp at h'
-      · exact hinv en h'
-    · simp at h; subst h; exact ⟨hse, hle, hv⟩
+/-- `Range{r0,r1}.contains(Range{q0,q1})`: `r[0] <= r2[0] && r[1] >= r2[1]` -/
+def containsB (r0 r1 q0 q1 : Int) : Bool := decide (r0 ≤ q0) && decide (r1 ≥ q1)
 
-/-- expiry removes any subset of entries -/
-theorem delete_inv (file : Bytes) (st : St) (hinv : Inv file st) (p : Entry → Bool) :
-    Inv file { cache := st.cache.filter p } := by
-  intro en hen
-  exact hinv en (List.mem_filter.mp hen).1
+/-- `start < 0 || end > rc.size || start > end` -/
+def invalidB (start e size : Int) : Bool := decide (start < 0) || decide (e > size) || decide (start > e)
 
-inductive FetchOutcome | ok | fail
+def sameKey (en : Entry) (s e : Int) : Bool := decide (en.s = s) && decide (en.e = e)
 
-/-- GetRange: validity check, cache lookup, else fetch under the write lock and cache on success only -/
-def getRange (file : Bytes) (st : St) (s len : Nat) (f : FetchOutcome) : St × Option Bytes :=
-  let e := s + len
-  if e > file.length then (st, none)                          -- refused, never padded
-  else match lookup st s e with
-    | some b => (st, some b)
-    | none =>
-      match f with
-      | .fail => (st, none)                                     -- failed fetch: state untouched
-      | .ok => (setRange st s e (slice file s e), some (slice file s e))
+/-! ## setRange -/
 
-theorem getRange_transparent (file : Bytes) (st : St) (hinv : Inv file st) (s len : Nat) (f : FetchOutcome) :
-    Inv file (getRange file st s len f).1 ∧
-    (∀ b, (getRange file st s len f).2 = some b → b = slice file s (s + len)) ∧
-    (s + len > file.length → (getRange file st s len f) = (st, none)) ∧
-    (f = .fail → (getRange file st s len f).1 = st) := by
-  by_cases hb : s + len > file.length
-  · unfold getRange; simp [hb, hinv]
-  · have hb' : ¬ (s + len > file.length) := hb
-    refine ⟨?_, ?_, fun h => absurd h hb', ?_⟩
-    · unfold getRange; simp only [hb, if_false]
-      cases hl : lookup st s (s + len) with
-      | some b => exact hinv
-      | none =>
-        cases f with
-        | fail => exact hinv
-        | ok => exact setRange_inv file st hinv s (s + len) _ (by omega) (by omega) rfl
-    · intro b
-      unfold getRange; simp only [hb, if_false]
-      cases hl : lookup st s (s + len) with
-      | some b0 =>
-        intro h; simp at h; subst h
-        exact lookup_correct file st hinv s (s + len) (by omega) b0 hl
-      | none =>
-        cases f with
-        | fail => intro h; simp at h
-        | ok => intro h; simp at h; exact h.symm
-    · intro hf; subst hf
-      unfold getRange; simp only [hb, if_false]
-      cases hl : lookup st s (s + len) <;> rfl
+inductive LoopEnd | done | superset | cancelled
+deriving Repr, DecidableEq
+
+/-- the `for r, rv := range rc.cache` loop of `setRange`: `todo` = entries not yet visited (in iteration
+    order), `kept` = visited and still in the map.  Returns how the loop ended, the map and `occupiedSpace`. -/
+def setLoop (s e : Int) : List Entry → List Entry → Nat → Ctx → LoopEnd × List Entry × Nat
+  | [], kept, occ, _ => (.done, kept, occ)
+  | en :: rest, kept, occ, ctx =>
+    if ctx.done then (.cancelled, kept ++ en :: rest, occ)                  -- return ctx.Err()
+    else if containsB en.s en.e s e then (.superset, kept ++ en :: rest, occ) -- return nil: deletions made so far stay
+    else if containsB s e en.s en.e then setLoop s e rest kept (sub64 occ en.v.length) ctx.tick   -- delete(rc.cache, r)
+    else setLoop s e rest (kept ++ [en]) occ ctx.tick
+
+inductive SetRes | ok | errRange | errLen | errCtx
+deriving Repr, DecidableEq
+
+/-- `setRange(ctx, start, ln, value)` (caller holds the write lock) -/
+def setRange (ks : Order) (ctx : Ctx) (size : Int) (st : State) (start ln : Int) (v : Bytes) : State × SetRes :=
+  let e := wrap64 (start + ln)
+  if invalidB start e size then (st, .errRange)
+  else if (v.length : Int) ≠ e - start then (st, .errLen)
+  else match setLoop start e (reorder ks st.cache) [] st.occ ctx with
+    | (.cancelled, c, o) => (⟨c, o⟩, .errCtx)
+    | (.superset, c, o) => (⟨c, o⟩, .ok)
+    | (.done, c, o) =>
+      -- rc.cache[Range{start,end}] = …  (a map assignment replaces an equal key)
+      (⟨c.filter (fun en => !sameKey en start e) ++ [⟨start, e, v⟩], add64 o v.length⟩, .ok)
+
+/-! ## DeleteOldEntries -/
+
+/-- the loop of `DeleteOldEntries`; `expired en` = `time.Since(e.LastRead) > maxAge` -/
+def delLoop (expired : Entry → Bool) : List Entry → List Entry → Nat → Ctx → List Entry × Nat
+  | [], kept, occ, _ => (kept, occ)
+  | en :: rest, kept, occ, ctx =>
+    if ctx.done then (kept ++ en :: rest, occ)
+    else if expired en then delLoop expired rest kept (sub64 occ en.v.length) ctx.tick
+    else delLoop expired rest (kept ++ [en]) occ ctx.tick
+
+def deleteOld (ks : Order) (ctx : Ctx) (expired : Entry → Bool) (st : State) : State :=
+  let r := delLoop expired (reorder ks st.cache) [] st.occ ctx
+  ⟨r.1, r.2⟩
+
+/-! ## getRangeFromCache -/
+
+inductive Look | hit (b : Bytes) | miss | ctxErr | panic
+deriving Repr, DecidableEq
+
+/-- Go `v[lo:hi]` on a slice whose capacity equals its length; `none` = runtime panic -/
+def goSlice (v : Bytes) (lo hi : Int) : Option Bytes :=
+  if 0 ≤ lo ∧ lo ≤ hi ∧ hi ≤ (v.length : Int) then some ((v.drop lo.toNat).take (hi - lo).toNat) else none
+
+/-- the superset scan `for r := range rc.cache` -/
+def scan (s e : Int) : List Entry → Ctx → Look
+  | [], _ => .miss
+  | en :: rest, ctx =>
+    if ctx.done then .ctxErr
+    else if containsB en.s en.e s e then
+      match goSlice en.v (s - en.s) (e - en.s) with
+      | some b => .hit b
+      | none => .panic
+    else scan s e rest ctx.tick
+
+/-- `getRangeFromCache(ctx, start, end)` (read lock held) -/
+def lookup (ks : Order) (ctx : Ctx) (st : State) (s e : Int) : Look :=
+  if st.cache.isEmpty then .miss
+  else match st.cache.find? (fun en => sameKey en s e) with
+    | some en => .hit en.v                       -- exact hit: clone(v.Value)
+    | none => scan s e (reorder ks st.cache) ctx
+
+/-! ## GetRange -/
+
+inductive Err | range | tooLarge | ctx | fetch | len
+deriving Repr, DecidableEq
+
+inductive Res | ok (b : Bytes) | err (c : Err) | panic
+deriving Repr, DecidableEq
+
+/-- outcome of one call `rc.remoteFetcher(v, start)`: the returned `n`, whether `err != nil`, and the content
+    of the buffer `v` after the call -/
+structure Fetch where
+  n : Nat
+  failed : Bool
+  buf : Bytes
+deriving Repr, DecidableEq
+
+/-- `if len(got) != int(end-start) { error }` at the end of `GetRange` -/
+def finish (b : Bytes) (want : Int) : Res := if (b.length : Int) ≠ want then .err .len else .ok b
+
+/-- first half of `GetRange`: validation and `getRangeFromCache` under the read lock.
+    `none` = miss: the call goes on to take the write lock. -/
+def check (ks : Order) (ctx : Ctx) (size : Int) (st : State) (start ln : Int) : Option Res :=
+  let e := wrap64 (start + ln)
+  if invalidB start e size then some (.err .range)
+  else if e - start > size then some (.err .tooLarge)
+  else match lookup ks ctx st start e with
+    | .ctxErr => some (.err .ctx)
+    | .panic => some .panic
+    | .hit b => some (finish b (e - start))
+    | .miss => none
+
+/-- second half of `GetRange`, under the write lock: fetch, cache on success only, return the fetched buffer.
+    (`size` is immutable, so re-testing validity here is the test `getRange` made before taking the lock.) -/
+def fetchSet (ks : Order) (ctx : Ctx) (size : Int) (st : State) (start ln : Int) (f : Fetch) : State × Res :=
+  let e := wrap64 (start + ln)
+  if invalidB start e size then (st, .err .range)
+  else if f.failed then (st, .err .fetch)
+  else ((setRange ks ctx size st start ln f.buf).1, finish f.buf (e - start))   -- setRange's error is ignored
+
+/-- a whole `GetRange` with nothing interleaved between its two halves -/
+def getRange (ks1 ks2 : Order) (ctx1 ctx2 : Ctx) (size : Int) (st : State) (start ln : Int) (f : Fetch) : State × Res :=
+  match check ks1 ctx1 size st start ln with
+  | some r => (st, r)
+  | none => fetchSet ks2 ctx2 size st start ln f
+
+/-! ## atomic steps = lock-protected sections -/
+
+inductive Expiry | all | keys (l : List (Int × Int))
+deriving Repr, DecidableEq
+
+def Expiry.test : Expiry → Entry → Bool
+  | .all, _ => true
+  | .keys l, en => l.contains (en.s, en.e)
+
+inductive Step
+  | check (ks : Order) (ctx : Ctx) (start ln : Int)                 -- GetRange, read-locked half
+  | fetchSet (ks : Order) (ctx : Ctx) (start ln : Int) (f : Fetch)  -- GetRange, write-locked half (after a miss)
+  | set (ks : Order) (ctx : Ctx) (start ln : Int) (v : Bytes)       -- SetRange
+  | deleteOld (ks : Order) (ctx : Ctx) (exp : Expiry)               -- DeleteOldEntries
+deriving Repr, DecidableEq
+
+inductive Out
+  | ret (r : Res)        -- a GetRange call returned `r`
+  | missed               -- the read-locked half missed; the call continues with a `fetchSet` step later
+  | set (r : SetRes)
+  | unit
+deriving Repr, DecidableEq
+
+def step (size : Int) (st : State) : Step → State × Out
+  | .check ks ctx start ln =>
+    match check ks ctx size st start ln with
+    | some r => (st, .ret r)
+    | none => (st, .missed)
+  | .fetchSet ks ctx start ln f => let r := fetchSet ks ctx size st start ln f; (r.1, .ret r.2)
+  | .set ks ctx start ln v => let r := setRange ks ctx size st start ln v; (r.1, .set r.2)
+  | .deleteOld ks ctx exp => (deleteOld ks ctx exp.test st, .unit)
+
+/-- run a history (= one interleaving of the lock-protected sections of any number of clients) -/
+def run (size : Int) : State → List Step → State × List Out
+  | st, [] => (st, [])
+  | st, x :: xs =>
+    let r := step size st x
+    let r2 := run size r.1 xs
+    (r2.1, r.2 :: r2.2)
+
+/-! ## HTTPSingleFileRemoteReaderAt.ReadAt and remoteReadAt (remote-file.go) -/
+
+/-- the error `ReadAt` returns -/
+inductive RErr | nil | eof | unexpectedEOF | other (c : Err)
+deriving Repr, DecidableEq
+
+/-- result of `ReadAt(p, off)`: `ret data err` = `(len data, err)` with `data` copied to the front of `p` -/
+inductive ReadAtRes | ret (data : Bytes) (err : RErr) | panic
+deriving Repr, DecidableEq
+
+/-- `ReadAt`: `off >= contentLength → (0, io.EOF)`; otherwise `GetRange(context.Background(), off, len(p))` -/
+def readAt (ks1 ks2 : Order) (size : Int) (st : State) (pLen : Nat) (off : Int) (f : Fetch) : State × ReadAtRes :=
+  if off ≥ size then (st, .ret [] .eof)
+  else match getRange ks1 ks2 none none size st off pLen f with
+    | (st', .ok v) =>
+      let n := min pLen v.length                       -- n = copy(p, v)
+      if n < pLen then (st', .ret (v.take n) .unexpectedEOF)
+      else (st', .ret (v.take n) .nil)
+    | (st', .err c) => (st', .ret [] (.other c))
+    | (st', .panic) => (st', .panic)
+
+/-- what one `client.Do(req)` yields -/
+inductive HttpResp
+  | transportErr
+  | resp (status : Nat) (body : Bytes)
+deriving Repr, DecidableEq
+
+/-- `retryExpotentialBackoff(…, 3, client.Do)`: the first of at most three attempts that is not a transport error -/
+def firstResp : List HttpResp → Option (Nat × Bytes)
+  | attempts => (attempts.take 3).findSome? fun
+    | .transportErr => none
+    | .resp s b => some (s, b)
+
+def zeros (n : Nat) : Bytes := List.replicate n 0
+
+/-- `remoteReadAt(client, url, p, off)` with `len(p) = ln`.
+    `checkStatus = true` is the repaired code (fix C17-1: any status other than 206 Partial Content is an
+    error, as everywhere else in the repository); `false` is the pinned tree, which reads whatever body came back. -/
+def remoteReadAt (checkStatus : Bool) (ln : Nat) (attempts : List HttpResp) : Fetch :=
+  match firstResp attempts with
+  | none => ⟨0, true, zeros ln⟩
+  | some (status, body) =>
+    if checkStatus && status != 206 then ⟨0, true, zeros ln⟩
+    else if body.length < ln then ⟨0, true, body ++ zeros (ln - body.length)⟩   -- io.ReadFull: (Unexpected)EOF
+    else ⟨ln, false, body.take ln⟩
+
+/-- the request `remoteReadAt` sends is `Range: bytes=off-(off+ln)`: last byte inclusive, so an RFC 7233
+    server answers 206 with `ln + 1` bytes, fewer at the end of the file -/
+def honestBody (file : Bytes) (off ln : Nat) : Bytes := slice file off (ln + 1)
 
 end RC
